@@ -897,7 +897,7 @@ func main() {
 	matrix(out, rng, false)
 	nb := 600
 	if a.Thorough() {
-		nb = 15000
+		nb = 40000
 	}
 	batches(out, rng, nb/2, false)
 	// pass 2: yield injection at router.handle.start / before_publish / before_settle and inside Publish
